@@ -394,9 +394,13 @@ func report(out *propOutcome, verbose bool) int {
 		"wall_s":      round3(wall),
 		"violations":  len(out.Violations),
 	}
-	os.MkdirAll(filepath.Join(verifDir(), "evidence"), 0o755)
+	evDir := filepath.Join(verifDir(), "evidence")
+	if d := os.Getenv("GOCV_EVIDENCE_DIR"); d != "" {
+		evDir = d // self-tests on mutated scratch copies must not overwrite the real evidence
+	}
+	os.MkdirAll(evDir, 0o755)
 	data, _ := json.MarshalIndent(ev, "", " ")
-	os.WriteFile(filepath.Join(verifDir(), "evidence", id+".json"), append(data, '\n'), 0o644)
+	os.WriteFile(filepath.Join(evDir, id+".json"), append(data, '\n'), 0o644)
 
 	// console
 	fmt.Printf("property %s tier=%s: %d functions, %d/%d obligations discharged, %d covers, %.1fs\n", id, out.Tier, len(out.Funcs), discharged, total, covers, wall)
@@ -436,8 +440,15 @@ func round3(x float64) float64 { return float64(int(x*1000+0.5)) / 1000 }
 
 // writeReplay records a failed obligation: name, function, solver verdict, the
 // model (if any) restricted to the function's inputs, and the full solver output.
+func replayDir() string {
+	if d := os.Getenv("GOCV_REPLAY_DIR"); d != "" {
+		return d
+	}
+	return filepath.Join(verifDir(), "replays")
+}
+
 func writeReplay(out *propOutcome, ob *Obligation, vc *VC) violation {
-	dir := filepath.Join(verifDir(), "replays")
+	dir := replayDir()
 	os.MkdirAll(dir, 0o755)
 	file := filepath.Join(dir, fmt.Sprintf("%s_%s.json", out.ID, hashStr(ob.Name)))
 	rep := map[string]any{
